@@ -38,6 +38,8 @@ func checkC05(c *Ctx) {
 	c.Expect("C05-R9", 2)
 	c.Rule("C05-R10", "Fini always closes the quit channel: the close is unconditional in the function Fini runs once")
 	c.Expect("C05-R10", 1)
+	c.Rule("C05-R11", "bytes a read returned are queued whatever error came with them (io.Reader: process n > 0 before the error): the send of chunk[:n] is not decided by the read's error")
+	c.Expect("C05-R11", 1)
 	c.Rule("C05-R8", "no producer of events looks at the fill level of an event queue (len/cap) to decide whether to deliver: that is dropping by another name")
 	c.Expect("C05-R6", 1)
 	c.Expect("C05-R8", 1)
@@ -71,6 +73,7 @@ func checkC05(c *Ctx) {
 		checkChunkOwnership(c, p, "C05-R6")
 		checkTimerDiscipline(c, p, "C05-R9")
 		checkQuitAlwaysClosed(c, p, "C05-R10")
+		checkReadBytesQueued(c, p, "C05-R11")
 	}
 }
 
